@@ -147,3 +147,168 @@ Proof.
       * apply (Hrec _ _ H). intros -> <-. exists y. split; [reflexivity|]. split; [left; reflexivity|]. left. split; [reflexivity|lia].
     + apply (Hrec _ _ H). intros -> <-. exists y. split; [reflexivity|]. split; [left; reflexivity|]. left. split; [reflexivity|lia].
 Qed.
+
+Definition nonneg (g : eghost) : Prop := forall i x, nth_error g i = Some x -> 0 <= e_cnt x /\ 0 <= e_fr x.
+Lemma agreeE_nonneg : forall g h, agreeE g h -> nonneg g.
+Proof.
+  intros g h AG i x Hn. pose proof (ae_cells g h AG i x Hn) as C. destruct (findw h (addr_of i)).
+  - destruct C as (_ & H1 & H2 & _). auto.
+  - destruct C as (H1 & H2 & _). lia.
+Qed.
+
+Lemma count_pos_in : forall (F : list nat) i, (0 < count_occ Nat.eq_dec F i)%nat <-> In i F.
+Proof. intros. symmetry. apply count_occ_In. Qed.
+
+(* no frame holds a window attached below [w], when [w] is framed at most once and then at the head *)
+Lemma nfb_from_FS : forall g F0 w, frames_of g F0 -> FS g F0 -> ~ In w (tl F0) ->
+  forall i x, nth_error g i = Some x -> edesc g w i -> e_fr x = 0.
+Proof.
+  intros g F0 w [Hfr _] HF Hnt i x Hn Hd. rewrite (Hfr i x Hn).
+  destruct (count_occ Nat.eq_dec F0 i) eqn:Ec; [reflexivity|]. exfalso.
+  assert (Hin : In i F0) by (apply count_pos_in; lia).
+  apply in_split in Hin. destruct Hin as (F1 & F2 & E).
+  pose proof (FS_desc g F0 w i HF Hd F1 F2 E) as Hw. apply Hnt. rewrite E.
+  destruct F1; cbn; [exact Hw|]. apply in_or_app. right. right. exact Hw.
+Qed.
+
+Lemma nth_eupd : forall g i f j, nth_error (eupd g i f) j =
+  if Nat.eqb j i then option_map f (nth_error g i) else nth_error g j.
+Proof.
+  intros g i f j. unfold eupd, eget. destruct (nth_error g i) as [x|] eqn:E.
+  - rewrite nth_eset, E. destruct (Nat.eqb j i); reflexivity.
+  - destruct (Nat.eqb_spec j i) as [->|]; [exact E|reflexivity].
+Qed.
+Lemma length_eupd : forall g i f, length (eupd g i f) = length g.
+Proof. intros. unfold eupd. destruct (eget g i); [apply length_eset|reflexivity]. Qed.
+
+(* a client call leaves the frames as they are *)
+Lemma estep_client_frames : forall g o g' F,
+  estep g o = Some g' -> is_frame_op o = false -> nonneg g -> frames_of g F -> no_frame_below g o ->
+  frames_of g' F /\ par_shrinks g g'.
+Proof.
+  intros g o g' F Hs Hk Hnn [Hfr Hb] Hnf.
+  assert (Hsame : frames_of g F /\ par_shrinks g g).
+  { split; [split; assumption|]. split; [lia|]. intros i x' Hn _. exists x'. auto. }
+  assert (Hset : forall w x x', nth_error g w = Some x -> e_fr x' = e_fr x -> (e_par x' = e_par x \/ e_par x' = None) ->
+            frames_of (eset g w x') F /\ par_shrinks g (eset g w x')).
+  { intros w x x' Hw Ef Ep. split; [split|split].
+    - intros i y Hn. rewrite nth_eset in Hn. destruct (Nat.eqb_spec i w) as [->|Hne].
+      + rewrite Hw in Hn. inversion Hn; subst y. rewrite Ef. apply (Hfr w x Hw).
+      + apply (Hfr i y Hn).
+    - intros i Hi. rewrite length_eset. auto.
+    - rewrite length_eset. lia.
+    - intros i y Hn _. rewrite nth_eset in Hn. destruct (Nat.eqb_spec i w) as [->|Hne].
+      + rewrite Hw in Hn. inversion Hn; subst y. exists x. auto.
+      + exists y. auto. }
+  assert (Hpass : forall w xw, nth_error g w = Some xw -> 0 < e_cnt xw -> e_cnt xw + e_fr xw = 1 ->
+            frames_of (edestroy g w) F /\ par_shrinks g (edestroy g w)).
+  { intros w xw Hw Hc Ht. unfold edestroy. split; [split|split].
+    - intros i y Hn. destruct (nth_edestroy_pass g 0 w [] i y Hn) as (x & Hx & _ & Hf).
+      rewrite <- (Hfr i x Hx). destruct Hf as [[Hf _]|[Hf Hwhy]]; [exact Hf|]. rewrite Hf.
+      destruct (Hnn i x Hx) as [H0 H1]. destruct Hwhy as [E|[Hp Hz]]; [|lia].
+      cbn in E. subst i. rewrite Hw in Hx. inversion Hx; subst x. destruct (Hnn w xw Hw). lia.
+    - intros i Hi. rewrite length_edestroy_pass. auto.
+    - rewrite length_edestroy_pass. lia.
+    - intros i y Hn _. destruct (nth_edestroy_pass g 0 w [] i y Hn) as (x & Hx & Hp & _). exists x. auto. }
+  destruct o; cbn in Hk; try discriminate; cbn [estep] in Hs.
+  - (* ONew *)
+    destruct (eusable g (idx p)); [|discriminate]. inversion Hs; subst g'. split; [split|split].
+    + intros i x Hn. destruct (Nat.lt_ge_cases i (length g)) as [Hlt|Hge].
+      * rewrite nth_error_app1 in Hn by exact Hlt. apply (Hfr i x Hn).
+      * rewrite nth_error_app2 in Hn by exact Hge. destruct (i - length g)%nat as [|d] eqn:Ed; cbn in Hn; [|destruct d; discriminate].
+        inversion Hn; subst x. cbn. destruct (count_occ Nat.eq_dec F i) eqn:Ec; [reflexivity|].
+        assert (In i F) by (apply count_pos_in; lia). specialize (Hb i H). lia.
+    + intros i Hi. rewrite app_length. specialize (Hb i Hi). lia.
+    + rewrite app_length. lia.
+    + intros i x' Hn Hlt. rewrite nth_error_app1 in Hn by exact Hlt. exists x'. auto.
+  - (* ORef *)
+    destruct (eheld g (idx w)); [|discriminate]. inversion Hs; subst g'. unfold eupd, eget.
+    destruct (nth_error g (idx w)) as [x|] eqn:Hw; [|exact Hsame]. apply (Hset (idx w) x); auto.
+  - (* OUnref *)
+    unfold eget in Hs. destruct (nth_error g (idx w)) as [x|] eqn:Hw; [|discriminate].
+    destruct (0 <? e_cnt x) eqn:Hp; [|discriminate]. apply Z.ltb_lt in Hp.
+    destruct (e_cnt x + e_fr x =? 1) eqn:E1; inversion Hs; subst g'.
+    + apply Z.eqb_eq in E1. eapply Hpass; eauto.
+    + apply (Hset (idx w) x); auto.
+  - (* OClose *)
+    unfold eget in Hs. destruct (nth_error g (idx w)) as [x|] eqn:Hw; [|discriminate].
+    destruct ((0 <? e_cnt x) && _); [|discriminate]. inversion Hs; subst g'. apply (Hset (idx w) x); auto.
+  - destruct (is_restack c && eusable g (idx w)); [|discriminate]. inversion Hs; subst g'. exact Hsame.
+  - destruct (eusable g (idx w)); [|discriminate]. inversion Hs; subst g'. exact Hsame.
+  - destruct (eusable g (idx w)); [|discriminate]. inversion Hs; subst g'. exact Hsame.
+  - destruct (eusable g (idx w)); [|discriminate]. inversion Hs; subst g'. exact Hsame.
+  - destruct (eusable g (idx w)); [|discriminate]. inversion Hs; subst g'. exact Hsame.
+  - destruct (eusable g (idx w)); [|discriminate]. inversion Hs; subst g'. exact Hsame.
+  - destruct (eusable g (idx w)); [|discriminate]. inversion Hs; subst g'. exact Hsame.
+  - destruct (Nat.eqb (idx w) 0 && eusable g 0); [|discriminate]. inversion Hs; subst g'. exact Hsame.
+  - inversion Hs; subst g'. exact Hsame.
+  - destruct t; inversion Hs; subst g'; exact Hsame.
+  - destruct (eusable g (idx w)); [|discriminate]. inversion Hs; subst g'. exact Hsame.
+  - destruct (eusable g (idx w)); [|discriminate]. inversion Hs; subst g'. exact Hsame.
+  - destruct (eusable g (idx w)); [|discriminate]. inversion Hs; subst g'. exact Hsame.
+  - inversion Hs; subst g'. exact Hsame.
+Qed.
+
+Lemma estep_push : forall g w g' F, estep g (OFrameRef w) = Some g' -> frames_of g F ->
+  frames_of g' (idx w :: F) /\ par_shrinks g g' /\ exists x, nth_error g (idx w) = Some x.
+Proof.
+  intros g w g' F Hs [Hfr Hb]. cbn [estep] in Hs. unfold ealive, eget in Hs.
+  destruct (nth_error g (idx w)) as [x|] eqn:Hw; [|discriminate].
+  destruct (0 <? e_cnt x + e_fr x); [|discriminate]. inversion Hs; subst g'.
+  split; [split|split; [split|eauto]].
+  - intros i y Hn. rewrite nth_eupd in Hn. cbn [count_occ]. destruct (Nat.eqb_spec i (idx w)) as [->|Hne].
+    + rewrite Hw in Hn. cbn in Hn. inversion Hn; subst y. cbn. destruct (Nat.eq_dec (idx w) (idx w)); [|congruence].
+      rewrite (Hfr _ x Hw). lia.
+    + destruct (Nat.eq_dec (idx w) i); [congruence|]. apply (Hfr i y Hn).
+  - intros i [<-|Hi]; rewrite length_eupd; [apply nth_error_Some; congruence|auto].
+  - rewrite length_eupd. lia.
+  - intros i y Hn _. rewrite nth_eupd in Hn. destruct (Nat.eqb_spec i (idx w)) as [->|Hne].
+    + rewrite Hw in Hn. cbn in Hn. inversion Hn; subst y. exists x. auto.
+    + exists y. auto.
+Qed.
+
+Lemma estep_pop : forall g w g' F, estep g (OFrameUnref w) = Some g' -> nonneg g -> frames_of g (idx w :: F) ->
+  frames_of g' F /\ par_shrinks g g'.
+Proof.
+  intros g w g' F Hs Hnn [Hfr Hb]. cbn [estep] in Hs. unfold eget in Hs.
+  destruct (nth_error g (idx w)) as [x|] eqn:Hw; [|discriminate].
+  destruct (0 <? e_fr x) eqn:Hp; [|discriminate]. apply Z.ltb_lt in Hp.
+  assert (Hcw : e_fr x = Z.of_nat (S (count_occ Nat.eq_dec F (idx w)))).
+  { rewrite (Hfr _ x Hw). cbn. destruct (Nat.eq_dec (idx w) (idx w)); [reflexivity|congruence]. }
+  assert (Hoth : forall i y, nth_error g i = Some y -> i <> idx w -> e_fr y = Z.of_nat (count_occ Nat.eq_dec F i)).
+  { intros i y Hn Hne. rewrite (Hfr i y Hn). cbn. destruct (Nat.eq_dec (idx w) i); [congruence|reflexivity]. }
+  assert (Hb' : forall i, In i F -> (i < length g)%nat) by (intros i Hi; apply Hb; right; exact Hi).
+  destruct (e_cnt x + e_fr x =? 1) eqn:E1; inversion Hs; subst g'.
+  - apply Z.eqb_eq in E1. destruct (Hnn _ x Hw) as [H0 H1].
+    assert (Ecnt : count_occ Nat.eq_dec F (idx w) = O) by lia.
+    unfold edestroy. split; [split|split].
+    + intros i y Hn. destruct (nth_edestroy_pass g 0 (idx w) [] i y Hn) as (z & Hz & _ & Hf).
+      destruct (Nat.eq_dec i (idx w)) as [->|Hne].
+      * rewrite Hw in Hz. inversion Hz; subst z. rewrite Ecnt.
+        destruct Hf as [[Hf _]|[Hf _]]; [|exact Hf]. 
+        (* the entry of [w] itself is always reset *)
+        exfalso. clear - Hn Hf Hp Hw. revert Hn. generalize (@nil nat). intro d.
+        assert (G : forall t i d k w0 y, w0 = (i + k)%nat -> nth_error (edestroy_pass t i w0 d) k = Some y -> e_fr y = 0).
+        { induction t as [|a t IHt]; intros i d0 k w0 y0 Ew Hy; [destruct k; discriminate|]. cbn [edestroy_pass] in Hy.
+          destruct k as [|k].
+          - rewrite Ew, Nat.add_0_r, Nat.eqb_refl in Hy. cbn in Hy. inversion Hy. reflexivity.
+          - assert (En : Nat.eqb i w0 = false) by (apply Nat.eqb_neq; lia). rewrite En in Hy.
+            assert (E' : w0 = (S i + k)%nat) by lia.
+            destruct (e_par a); [destruct (existsb _ _ && _); [destruct (_ =? 0)|]|]; cbn [nth_error] in Hy;
+              eapply (IHt (S i) _ k w0 y0 E' Hy). }
+        intro Hn. specialize (G g 0%nat d (idx w) (idx w) y eq_refl Hn). lia.
+      * rewrite <- (Hoth i z Hz Hne). destruct Hf as [[Hf _]|[Hf Hwhy]]; [exact Hf|]. rewrite Hf.
+        destruct (Hnn i z Hz). destruct Hwhy as [E|[Hq Hz0]]; [cbn in E; congruence|lia].
+    + intros i Hi. rewrite length_edestroy_pass. auto.
+    + rewrite length_edestroy_pass. lia.
+    + intros i y Hn _. destruct (nth_edestroy_pass g 0 (idx w) [] i y Hn) as (z & Hz & Hpz & _). exists z. auto.
+  - split; [split|split].
+    + intros i y Hn. rewrite nth_eset in Hn. destruct (Nat.eqb_spec i (idx w)) as [->|Hne].
+      * rewrite Hw in Hn. inversion Hn; subst y. cbn. lia.
+      * apply (Hoth i y Hn Hne).
+    + intros i Hi. rewrite length_eset. auto.
+    + rewrite length_eset. lia.
+    + intros i y Hn _. rewrite nth_eset in Hn. destruct (Nat.eqb_spec i (idx w)) as [->|Hne].
+      * rewrite Hw in Hn. inversion Hn; subst y. exists x. auto.
+      * exists y. auto.
+Qed.
